@@ -769,10 +769,13 @@ def _force_trigger_tasks(
                 continue
 
             if itask.state(*TASK_STATUSES_ACTIVE):
-                for (label, msg, completed) in itask.state.outputs:
-                    if completed:
-                        active_completed_outputs[
-                            (str(itask.point), itask.tdef.name)] = (label, msg)
+                active_completed_outputs[
+                    (str(itask.point), itask.tdef.name)
+                ] = {
+                    msg
+                    for (_label, msg, completed) in itask.state.outputs
+                    if completed
+                }
 
             if itask.state(TASK_STATUS_PREPARING, *TASK_STATUSES_ACTIVE):
                 # This is a live active group start task
@@ -874,7 +877,9 @@ def _force_trigger_tasks(
                 PrereqTuple(str(key.point), str(key.task), key.output)
                 for pre in _prereqs
                 for key in pre.keys()
-                if (str(key.point), key.task) in active_completed_outputs
+                if key.output in active_completed_outputs.get(
+                    (str(key.point), key.task), ()
+                )
             })
 
             if (
